@@ -49,7 +49,12 @@ func runC03(env *lib.Env, rep *lib.Report) {
 	}
 	var cfgs []c03Cfg
 	for _, seed := range seeds {
-		cfgs = append(cfgs, c03Cfg{histCfg{Name: "real/" + seed, Seed: seed, Alpha: alpha, Depth: d, TickChoice: true}, suffix, sfx})
+		a := alpha
+		if seed == "t1x8" {
+			// (a refused CREATE TABLE before the statement that is cut: whatever it takes - a page, a row id, an LSN - is not in the log)
+			a.FailingCreate = true
+		}
+		cfgs = append(cfgs, c03Cfg{histCfg{Name: "real/" + seed, Seed: seed, Alpha: a, Depth: d, TickChoice: true}, suffix, sfx})
 	}
 	cfgs = append(cfgs, c03Cfg{histCfg{Name: "leaf3-int3/interleaved", Opt: worldOpt{Leaf: 3, Internal: 3}, Seed: "interleaved", Alpha: alpha, Depth: d, TickChoice: true}, suffix, sfx})
 	rep.Bounds["history depth (the last statement is the one being logged)"] = d
